@@ -123,7 +123,10 @@ def gen(seed: int, tier: str) -> dict[str, Any]:
            # unregisters itself from inside its notification
            "oneshot_cb": rng.choice([None, None, "CONNECTED", "DISCONNECTED", "CONNECTING"]),
            # a listener registered between the two recording callbacks raises when it hears of this state
-           "raising_cb": rng.choice([None, None, None, "CONNECTED", "DISCONNECTED", "CONNECTING"])}
+           "raising_cb": rng.choice([None, None, None, "CONNECTED", "DISCONNECTED", "CONNECTING"]),
+           "shared_cb": rng.random() < 0.15}
+    if transport in ("udp", "tcp") and mode == "bare" and rng.random() < 0.06:
+        cfg["disc_in_first_connect"] = rng.choice([0, 0, 1, 2])
     if transport in ("tcp", "secure") and mode == "bare" and rng.random() < 0.08:
         # the TCP connection dies while the very first connect() still waits for its ConnectResponse: that attempt fails by
         # itself - nothing may go on connecting behind the caller's back after connect() raised
@@ -190,7 +193,7 @@ def run(plan: dict[str, Any]) -> dict[str, Any]:
         gw = SecureGateway(net, random.Random(plan["seed"] ^ 0xC25), script=dict(plan.get("gw") or {}), bus=bus)
     else:
         gw = SimGateway(net, script=dict(plan.get("gw") or {}), bus=bus)
-    traces: list[list[str]] = [[], []]
+    traces: list[list[str]] = [[], [], []]
 
     def mk_cb(i, xknx):
         def cb(state):
@@ -261,6 +264,14 @@ def run(plan: dict[str, Any]) -> dict[str, Any]:
                     raise RuntimeError("scripted failure of a connection state listener")
             xknx.connection_manager.register_connection_state_changed_cb(raising)
         xknx.connection_manager.register_connection_state_changed_cb(mk_cb(1, xknx))
+        if cfg.get("shared_cb"):
+            # two consumers of the application register the same callable (a method of a shared object); one of them
+            # unregisters again at once - the other one's registration stays and hears of every change
+            shared = mk_cb(2, xknx)
+            un_a = xknx.connection_manager.register_connection_state_changed_cb(shared)
+            xknx.connection_manager.register_connection_state_changed_cb(shared)
+            un_a()
+            R.extra_faults["same_callable_registered_by_two_consumers"] += 1
         if cfg.get("loss_in_first_connect"):
             def lose():
                 for c_ in net.tcp_conns:
@@ -269,6 +280,30 @@ def run(plan: dict[str, Any]) -> dict[str, Any]:
                         gw.on_close(c_)
                         R.extra_faults["tcp_lost_during_first_connect"] += 1
             loop.after(cfg["loss_in_first_connect"], lose, label="op")
+        if cfg.get("disc_in_first_connect") is not None and tunnel is not None:
+            # another task of the application calls disconnect() while the very first connect() is under way: in the loop
+            # iteration in which the ConnectResponse is read from the socket (just before it, or k iterations later)
+            async def early_disc():
+                info["disc_call"] = R.record("op_call", "user", "disconnect")
+                R.extra_faults["user_disconnect_during_first_connect"] += 1
+                try:
+                    await tunnel.disconnect()
+                except CommunicationError:
+                    R.probes["disconnect_raised_comm_error"] += 1
+                info["disc_ret"] = R.record("op_return", "user", "disconnect")
+                info["early_disc_ret"] = info["disc_ret"]
+
+            def pre(kind, receiver, data):
+                h = W.parse_header(bytes(data))
+                if h and h[0] == W.CONNECT_RES and not info.get("early_disc"):
+                    info["early_disc"] = True
+                    k_ = cfg["disc_in_first_connect"]
+                    if k_ == 0:
+                        tasks0.append(loop.create_task(early_disc()))
+                    else:
+                        loop.soon_iters(k_, lambda: tasks0.append(loop.create_task(early_disc())), label="op")
+            tasks0: list[asyncio.Task] = []
+            net.pre_deliver = pre
         try:
             if tunnel is not None:
                 await tunnel.connect()
@@ -277,6 +312,7 @@ def run(plan: dict[str, Any]) -> dict[str, Any]:
                 tunnel = xknx.knxip_interface._interface
         except CommunicationError:
             R.probes["initial_connect_failed"] += 1
+            net.pre_deliver = None
             info["disc_ret"] = R.record("op_return", "user", "connect_failed")
             info["disc_call"] = info["disc_ret"]
             info["tunnel"] = tunnel
@@ -284,6 +320,7 @@ def run(plan: dict[str, Any]) -> dict[str, Any]:
             await finish(xknx, tunnel, [])
             return
         info["tunnel"] = tunnel
+        net.pre_deliver = None
         t0 = loop.time()
         if busy is not None:
             busy.windows = [(t0 + a, t0 + a + d) for (a, d) in cfg["main_loop_busy"]]
@@ -531,6 +568,9 @@ def oracle(R: Run, plan, info, traces, udp):
             R.violate("C25.state-callbacks", "duplicate-consecutive-state", f"{a} notified twice in a row")
     if traces[0] != traces[1]:
         R.violate("C25.state-callbacks", "callbacks-disagree", f"{traces[0]} vs {traces[1]}")
+    if cfg.get("shared_cb") and traces[0] != traces[2]:
+        R.violate("C25.state-callbacks", "callbacks-disagree:callable-registered-twice",
+                  f"{traces[0]} vs {traces[2]} (the callable two consumers had registered, one of them unregistered)")
     xknx = info["xknx"]
     if xknx is not None and tr:
         if (tr[-1] == "CONNECTED") != bool(info["final_connected"]) and info["final_state"] == tr[-1]:
